@@ -742,4 +742,386 @@ example : ∃ e, addOne idCodec .repaired [⟨[1], .nil, 0⟩] ([1], .dict [(.st
 example : numExamples (.dict [(.str "x", .ndarray ⟨[2, 1], .int8, false, [[1], [2]]⟩),
                               (.str "y", .objarr [2] [.bytes [1], .bytes []])]) = .ok 2 := rfl
 
+/-! ## checkpoint directory: arbitrary histories of `save_checkpoint` -/
+
+section Ckpt
+variable {σ : Type}
+
+/-- the listing is strictly ascending by round -/
+def DirSorted (d : Dir σ) : Prop := d.Pairwise (fun a b => a.1 < b.1)
+
+theorem mem_dirInsert (r : Nat) (s : σ) (d : Dir σ) (hd : DirSorted d) (p : Nat × σ) :
+    p ∈ dirInsert r s d ↔ p = (r, s) ∨ (p ∈ d ∧ p.1 ≠ r) := by
+  induction d with
+  | nil => simp [dirInsert]
+  | cons q rest ih =>
+    obtain ⟨r', s'⟩ := q
+    have hd' := List.pairwise_cons.mp hd
+    unfold dirInsert
+    by_cases h1 : r < r'
+    · simp only [h1, if_true, List.mem_cons]
+      constructor
+      · rintro (h | h | h)
+        · exact Or.inl h
+        · right; subst h; exact ⟨Or.inl rfl, by simp; omega⟩
+        · right; exact ⟨Or.inr h, by have := hd'.1 p h; simp at this; omega⟩
+      · rintro (h | ⟨h | h, _⟩)
+        · exact Or.inl h
+        · exact Or.inr (Or.inl h)
+        · exact Or.inr (Or.inr h)
+    · by_cases h2 : r = r'
+      · subst h2
+        simp only [Nat.lt_irrefl, if_false, if_true, List.mem_cons]
+        constructor
+        · rintro (h | h)
+          · exact Or.inl h
+          · right; exact ⟨Or.inr h, by have := hd'.1 p h; simp at this; omega⟩
+        · rintro (h | ⟨h | h, hne⟩)
+          · exact Or.inl h
+          · subst h; simp at hne
+          · exact Or.inr h
+      · simp only [h1, h2, if_false, List.mem_cons]
+        rw [ih hd'.2]
+        constructor
+        · rintro (h | h | ⟨h, hne⟩)
+          · right; subst h; exact ⟨Or.inl rfl, by simp; omega⟩
+          · exact Or.inl h
+          · exact Or.inr ⟨Or.inr h, hne⟩
+        · rintro (h | ⟨h | h, hne⟩)
+          · exact Or.inr (Or.inl h)
+          · exact Or.inl h
+          · exact Or.inr (Or.inr ⟨h, hne⟩)
+
+theorem sorted_dirInsert (r : Nat) (s : σ) (d : Dir σ) (hd : DirSorted d) :
+    DirSorted (dirInsert r s d) := by
+  induction d with
+  | nil => simp [dirInsert, DirSorted]
+  | cons q rest ih =>
+    obtain ⟨r', s'⟩ := q
+    have hd' := List.pairwise_cons.mp hd
+    unfold dirInsert
+    by_cases h1 : r < r'
+    · simp only [h1, if_true]
+      refine List.pairwise_cons.mpr ⟨?_, hd⟩
+      intro p hp
+      rcases List.mem_cons.mp hp with rfl | hp
+      · exact h1
+      · have := hd'.1 p hp; simp at this ⊢; omega
+    · by_cases h2 : r = r'
+      · subst h2
+        simp only [Nat.lt_irrefl, if_false, if_true]
+        exact List.pairwise_cons.mpr ⟨fun p hp => hd'.1 p hp, hd'.2⟩
+      · simp only [h1, h2, if_false]
+        refine List.pairwise_cons.mpr ⟨?_, ih hd'.2⟩
+        intro p hp
+        rcases (mem_dirInsert r s rest hd'.2 p).mp hp with rfl | ⟨hp, _⟩
+        · simp; omega
+        · exact hd'.1 p hp
+
+theorem length_dirInsert_pos (r : Nat) (s : σ) (d : Dir σ) : 0 < (dirInsert r s d).length := by
+  cases d with
+  | nil => simp [dirInsert]
+  | cons q rest =>
+    obtain ⟨r', s'⟩ := q
+    unfold dirInsert
+    split
+    · simp
+    · split <;> simp
+
+theorem length_dirInsert_ge (r : Nat) (s : σ) (d : Dir σ) : d.length ≤ (dirInsert r s d).length := by
+  induction d with
+  | nil => simp
+  | cons q rest ih =>
+    obtain ⟨r', s'⟩ := q
+    unfold dirInsert
+    split
+    · simp
+    · split
+      · simp
+      · simp only [List.length_cons]; omega
+
+theorem sorted_saveCkpt (keep r : Nat) (s : σ) (d : Dir σ) (hd : DirSorted d) :
+    DirSorted (saveCkpt keep d r s) := by
+  unfold saveCkpt
+  have h := sorted_dirInsert r s d hd
+  simp only
+  split
+  · exact h
+  · exact List.Pairwise.sublist (List.drop_sublist _ _) h
+
+theorem mem_saveCkpt (keep r : Nat) (s : σ) (d : Dir σ) (p : Nat × σ) (hp : p ∈ saveCkpt keep d r s) :
+    p ∈ dirInsert r s d := by
+  unfold saveCkpt at hp
+  simp only at hp
+  split at hp
+  · exact hp
+  · exact List.mem_of_mem_drop hp
+
+theorem length_saveCkpt (keep r : Nat) (s : σ) (d : Dir σ) (hk : 0 < keep) :
+    (saveCkpt keep d r s).length ≤ keep ∧ 0 < (saveCkpt keep d r s).length := by
+  unfold saveCkpt
+  have := length_dirInsert_pos r s d
+  simp only [Nat.ne_of_gt hk, if_false, List.length_drop]
+  omega
+
+/-- in a sorted listing the last entry has the highest round -/
+theorem getLast_max (d : Dir σ) (hd : DirSorted d) (p : Nat × σ) (hp : d.getLast? = some p) :
+    p ∈ d ∧ ∀ q ∈ d, q.1 ≤ p.1 := by
+  induction d with
+  | nil => simp at hp
+  | cons q rest ih =>
+    have hd' := List.pairwise_cons.mp hd
+    cases rest with
+    | nil =>
+      simp at hp; subst hp
+      exact ⟨by simp, by simp⟩
+    | cons q2 rest2 =>
+      rw [List.getLast?_cons_cons] at hp
+      obtain ⟨h1, h2⟩ := ih hd'.2 hp
+      refine ⟨List.mem_cons_of_mem _ h1, ?_⟩
+      intro x hx
+      rcases List.mem_cons.mp hx with rfl | hx
+      · exact Nat.le_of_lt (hd'.1 p h1)
+      · exact h2 x hx
+
+theorem lastSaved_snoc (h : List (Nat × σ)) (r r' : Nat) (s : σ) :
+    lastSaved (h ++ [(r, s)]) r' = if r = r' then some s else lastSaved h r' := by
+  unfold lastSaved
+  simp only [List.reverse_append, List.reverse_cons, List.reverse_nil, List.nil_append,
+    List.singleton_append, List.find?_cons]
+  by_cases hr : r = r'
+  · simp [hr]
+  · have : (r == r') = false := by simpa using hr
+    simp [this, hr]
+
+theorem runHist_snoc (keep : Nat) (h : List (Nat × σ)) (r : Nat) (s : σ) :
+    runHist keep (h ++ [(r, s)]) = saveCkpt keep (runHist keep h) r s := by
+  simp [runHist, List.foldl_append]
+
+/-- the invariant of a checkpoint directory produced by any history -/
+structure CkptInv (keep : Nat) (h : List (Nat × σ)) (d : Dir σ) : Prop where
+  sorted : DirSorted d
+  size : 0 < keep → d.length ≤ keep
+  content : ∀ p ∈ d, lastSaved h p.1 = some p.2
+  dropped : ∀ p ∈ h, (∃ s, (p.1, s) ∈ d) ∨ (0 < keep ∧ d.length = keep ∧ ∀ q ∈ d, p.1 < q.1)
+
+theorem ckptInv_step (keep : Nat) (h : List (Nat × σ)) (d : Dir σ) (r : Nat) (s : σ)
+    (inv : CkptInv keep h d) : CkptInv keep (h ++ [(r, s)]) (saveCkpt keep d r s) := by
+  have hs' := sorted_dirInsert r s d inv.sorted
+  have hmem := mem_dirInsert r s d inv.sorted
+  refine ⟨sorted_saveCkpt keep r s d inv.sorted, fun hk => (length_saveCkpt keep r s d hk).1, ?_, ?_⟩
+  · intro p hp
+    rw [lastSaved_snoc]
+    rcases (hmem p).mp (mem_saveCkpt keep r s d p hp) with rfl | ⟨hp, hne⟩
+    · simp
+    · have : ¬ r = p.1 := fun e => hne e.symm
+      simp [this, inv.content p hp]
+  · -- every round ever saved is either still there, or the directory is full of higher rounds
+    -- first: the same statement for members of the freshly written listing
+    have key : ∀ x ∈ dirInsert r s d, (∃ t, (x.1, t) ∈ saveCkpt keep d r s) ∨
+        (0 < keep ∧ (saveCkpt keep d r s).length = keep ∧ ∀ q ∈ saveCkpt keep d r s, x.1 < q.1) := by
+      intro x hx
+      unfold saveCkpt
+      simp only
+      by_cases hk : keep = 0
+      · left; exact ⟨x.2, by simpa [hk] using hx⟩
+      · simp only [hk, if_false]
+        have hsplit := List.take_append_drop ((dirInsert r s d).length - keep) (dirInsert r s d)
+        rw [← hsplit] at hx
+        rcases List.mem_append.mp hx with hx | hx
+        · right
+          have hpw : (List.take ((dirInsert r s d).length - keep) (dirInsert r s d) ++
+              List.drop ((dirInsert r s d).length - keep) (dirInsert r s d)).Pairwise
+              (fun a b => a.1 < b.1) := by rw [hsplit]; exact hs'
+          have hlt := (List.pairwise_append.mp hpw).2.2 x hx
+          have hlen : 0 < (List.take ((dirInsert r s d).length - keep) (dirInsert r s d)).length :=
+            List.length_pos_of_mem hx
+          simp only [List.length_take] at hlen
+          refine ⟨by omega, by simp only [List.length_drop]; omega, hlt⟩
+        · left; exact ⟨x.2, hx⟩
+    intro p hp
+    rcases List.mem_append.mp hp with hp | hp
+    · rcases inv.dropped p hp with ⟨t, ht⟩ | ⟨hk, hlen, hall⟩
+      · by_cases hpr : p.1 = r
+        · have := key (r, s) ((hmem _).mpr (Or.inl rfl))
+          rw [hpr]; exact this
+        · exact key (p.1, t) ((hmem _).mpr (Or.inr ⟨ht, hpr⟩))
+      · -- p was already dropped: the directory was full of higher rounds, and stays so
+        by_cases hpr : p.1 = r
+        · have := key (r, s) ((hmem _).mpr (Or.inl rfl))
+          rw [hpr]; exact this
+        · right
+          have hk0 : keep ≠ 0 := by omega
+          refine ⟨hk, ?_, ?_⟩
+          · have hl := length_saveCkpt keep r s d hk
+            -- the new listing has at least `keep` entries: all of `d` (minus an overwritten one) plus the new one
+            have hge : keep ≤ (dirInsert r s d).length := by
+              have := length_dirInsert_ge r s d
+              omega
+            unfold saveCkpt
+            simp only [hk0, if_false, List.length_drop]
+            omega
+          · intro q hq
+            have hq' := (hmem q).mp (mem_saveCkpt keep r s d q hq)
+            rcases hq' with rfl | ⟨hq', _⟩
+            · -- q is the new entry; it survived, so it is not the minimum that was cut … use `key`-style split
+              -- the new listing has keep+1 or keep entries; if r were ≤ p.1 it would be below all of d
+              -- and hence the (only) dropped entry
+              by_cases hlt : p.1 < r
+              · exact hlt
+              · exfalso
+                have hrlt : ∀ q ∈ d, r < q.1 := fun q hq => by have := hall q hq; omega
+                -- then dirInsert = (r,s) :: d and one entry is dropped: (r,s)
+                have hins : dirInsert r s d = (r, s) :: d := by
+                  cases hd : d with
+                  | nil => simp [dirInsert]
+                  | cons q0 rest =>
+                    obtain ⟨r0, s0⟩ := q0
+                    have := hrlt (r0, s0) (by simp [hd])
+                    simp [dirInsert, this]
+                have : saveCkpt keep d r s = d := by
+                  unfold saveCkpt
+                  simp only [hk0, if_false, hins, List.length_cons, hlen]
+                  simp
+                rw [this] at hq
+                have := hrlt _ hq
+                simp at this
+            · exact hall q hq'
+    · simp only [List.mem_singleton] at hp
+      subst hp
+      exact key (r, s) ((hmem _).mpr (Or.inl rfl))
+
+theorem ckptInv_foldl (keep : Nat) (h : List (Nat × σ)) :
+    ∀ (h0 : List (Nat × σ)) (d : Dir σ), CkptInv keep h0 d →
+      CkptInv keep (h0 ++ h) (h.foldl (fun d p => saveCkpt keep d p.1 p.2) d) := by
+  induction h with
+  | nil => intro h0 d inv; simpa using inv
+  | cons p rest ih =>
+    intro h0 d inv
+    obtain ⟨r, s⟩ := p
+    have := ih (h0 ++ [(r, s)]) _ (ckptInv_step keep h0 d r s inv)
+    simpa [List.append_assoc] using this
+
+theorem ckptInv_runHist (keep : Nat) (h : List (Nat × σ)) : CkptInv keep h (runHist keep h) := by
+  have := ckptInv_foldl keep h [] [] ⟨List.Pairwise.nil, fun _ => Nat.zero_le _, by simp, by simp⟩
+  simpa [runHist] using this
+
+/-- **Checkpoint histories.** After ANY history of `save_checkpoint` calls (any order of round
+numbers, rounds saved repeatedly, `keep ≥ 1`): `load_latest_checkpoint` returns a checkpoint; its
+round is the highest round on disk; and its state is the state LAST saved under that round. -/
+theorem C16_ckpt_latest (keep : Nat) (hk : 0 < keep) (h : List (Nat × σ)) (hne : h ≠ []) :
+    ∃ s r, loadLatest (runHist keep h) = some (s, r) ∧
+      (r, s) ∈ runHist keep h ∧ (∀ q ∈ runHist keep h, q.1 ≤ r) ∧ lastSaved h r = some s := by
+  have inv := ckptInv_runHist keep h
+  have hpos : 0 < (runHist keep h).length := by
+    obtain ⟨h', p, rfl⟩ : ∃ h' p, h = h' ++ [p] := by
+      rcases List.eq_nil_or_concat h with e | ⟨l, a, e⟩
+      · exact absurd e hne
+      · exact ⟨l, a, by simpa using e⟩
+    rw [runHist_snoc]
+    exact (length_saveCkpt keep p.1 p.2 _ hk).2
+  cases hl : (runHist keep h).getLast? with
+  | none => rw [List.getLast?_eq_none_iff] at hl; rw [hl] at hpos; simp at hpos
+  | some p =>
+    obtain ⟨r, s⟩ := p
+    obtain ⟨hm, hmax⟩ := getLast_max _ inv.sorted _ hl
+    exact ⟨s, r, by simp [loadLatest, hl], hm, hmax, inv.content _ hm⟩
+
+/-- at most `keep` files, distinct rounds in ascending order, and every surviving file holds the state
+last saved under its round — after any history. -/
+theorem C16_ckpt_files (keep : Nat) (h : List (Nat × σ)) :
+    DirSorted (runHist keep h) ∧ (0 < keep → (runHist keep h).length ≤ keep) ∧
+    (∀ r s, loadRound (runHist keep h) r = some s → lastSaved h r = some s) ∧
+    (∀ p ∈ runHist keep h, loadRound (runHist keep h) p.1 = some p.2) := by
+  have inv := ckptInv_runHist keep h
+  have hfind : ∀ p ∈ runHist keep h, loadRound (runHist keep h) p.1 = some p.2 := by
+    intro p hp
+    unfold loadRound
+    have hs := inv.sorted
+    generalize runHist keep h = d at hp hs
+    induction d with
+    | nil => cases hp
+    | cons q rest ih =>
+      have hd' := List.pairwise_cons.mp hs
+      rcases List.mem_cons.mp hp with rfl | hp
+      · simp
+      · have hne : (q.1 == p.1) = false := by
+          have := hd'.1 p hp
+          simp; omega
+        simp only [List.find?_cons, hne]
+        exact ih hp hd'.2
+  refine ⟨inv.sorted, inv.size, ?_, hfind⟩
+  intro r s hl
+  unfold loadRound at hl
+  cases hf : (runHist keep h).find? (fun p => p.1 == r) with
+  | none => simp [hf] at hl
+  | some p =>
+    simp [hf] at hl
+    have hm := List.mem_of_find?_eq_some hf
+    have hr : p.1 = r := by simpa using List.find?_some hf
+    rw [← hr, ← hl]; exact inv.content p hm
+
+/-- which rounds survive: a round that was saved at some point and is no longer on disk has been pushed out
+by `keep` higher rounds (so the files are the `keep` highest distinct rounds ever saved). -/
+theorem C16_ckpt_survivors (keep : Nat) (h : List (Nat × σ)) (p : Nat × σ) (hp : p ∈ h) :
+    (∃ s, (p.1, s) ∈ runHist keep h) ∨
+    (0 < keep ∧ (runHist keep h).length = keep ∧ ∀ q ∈ runHist keep h, p.1 < q.1) :=
+  (ckptInv_runHist keep h).dropped p hp
+
+/-- a save under a round at least as high as everything on disk (the normal case, and the case of saving
+the SAME round again with another state) is what `load_latest_checkpoint` returns next. -/
+theorem C16_ckpt_save_then_load (keep : Nat) (hk : 0 < keep) (h : List (Nat × σ)) (r : Nat) (s : σ)
+    (hmax : ∀ q ∈ runHist keep h, q.1 ≤ r) :
+    loadLatest (runHist keep (h ++ [(r, s)])) = some (s, r) := by
+  obtain ⟨s', r', hl, hm, hmax', hlast⟩ := C16_ckpt_latest keep hk (h ++ [(r, s)]) (by simp)
+  rw [runHist_snoc] at hm hmax'
+  have hin : (r, s) ∈ dirInsert r s (runHist keep h) :=
+    (mem_dirInsert r s _ (ckptInv_runHist keep h).sorted _).mpr (Or.inl rfl)
+  -- the written entry survives: it is the maximum of the new listing
+  have hr' : r' = r := by
+    rcases (mem_dirInsert r s _ (ckptInv_runHist keep h).sorted _).mp (mem_saveCkpt keep r s _ _ hm) with e | ⟨hq, _⟩
+    · exact (Prod.mk.inj e).1
+    · have h1 := hmax _ hq
+      -- (r,s) survives the cut because nothing in the new listing is above it
+      have hsurv : (r, s) ∈ saveCkpt keep (runHist keep h) r s := by
+        have key := ckptInv_step keep h _ r s (ckptInv_runHist keep h)
+        rcases key.dropped (r, s) (by simp) with ⟨t, ht⟩ | ⟨_, _, hall⟩
+        · rcases (mem_dirInsert r s _ (ckptInv_runHist keep h).sorted _).mp (mem_saveCkpt keep r s _ _ ht) with e | ⟨_, hne⟩
+          · rw [(Prod.mk.inj e).2] at ht; exact ht
+          · exact absurd rfl hne
+        · have := hall _ hm; simp at this; omega
+      have := hmax' _ hsurv
+      simp at this h1; omega
+  subst hr'
+  rw [lastSaved_snoc] at hlast
+  simp at hlast
+  rw [hl, hlast]
+
+/-- what the code does with a round below a full directory: the file is written and removed again at once,
+the directory (and hence what is loaded) is unchanged — the state just saved cannot be loaded back. -/
+theorem C16_ckpt_low_round_dropped (keep : Nat) (hk : 0 < keep) (d : Dir σ) (r : Nat) (s : σ)
+    (hfull : d.length = keep) (hlow : ∀ q ∈ d, r < q.1) : saveCkpt keep d r s = d := by
+  have hins : dirInsert r s d = (r, s) :: d := by
+    cases hd : d with
+    | nil => simp [dirInsert]
+    | cons q0 rest =>
+      obtain ⟨r0, s0⟩ := q0
+      have := hlow (r0, s0) (by simp [hd])
+      simp [dirInsert, this]
+  unfold saveCkpt
+  simp only [Nat.ne_of_gt hk, if_false, hins, List.length_cons, hfull]
+  simp
+
+end Ckpt
+
+example : runHist 2 [(3, "a"), (0, "b"), (3, "c"), (2, "d"), (0, "e"), (4, "f")] = [(3, "c"), (4, "f")] := by
+  decide
+example : loadLatest (runHist 1 [(5, "old"), (5, "new")]) = some ("new", 5) :=
+  C16_ckpt_save_then_load 1 (by decide) [(5, "old")] 5 "new" (by decide)
+example : ∃ s r, loadLatest (runHist 2 [(1, 10), (2, 20), (3, 30), (2, 21), (3, 31), (4, 40)]) = some (s, r) ∧ r = 4 ∧ s = 40 :=
+  ⟨40, 4, by decide, rfl, rfl⟩
+example : saveCkpt 2 [(5, "x"), (7, "y")] 3 "z" = [(5, "x"), (7, "y")] :=
+  C16_ckpt_low_round_dropped 2 (by decide) _ 3 "z" rfl (by decide)
+example : (runHist 2 [(3, 0), (1, 1), (2, 2)]).length ≤ 2 := (C16_ckpt_files 2 _).2.1 (by decide)
+
 end FedjaxVerif.Serialize
